@@ -691,9 +691,11 @@ def rule_r17(chk, prog):
                       'mutators) - the final sweep is not a sweep of every '
                       'enabled mutator', loc=m.loc(x), nontrivial=True)
     chk.floor('C02.R17', 'subscripts of the pass list in get_pass', n, 1)
-    r = m.func('reduce')
+    m.func('reduce')  # anchor
     nl = 0
-    for lp in ast.walk(r):
+    loops_ = [lp for q_, r in m.funcs.items() if '<locals>' not in q_
+              for lp in walk_no_nested(r)]
+    for lp in loops_:
         if isinstance(lp, ast.For) and any(
                 isinstance(c, ast.Call) and (call_name(c) or '') ==
                 'get_pass' for c in ast.walk(lp)):
@@ -707,7 +709,10 @@ def rule_r17(chk, prog):
             nl += 1
             it = unparse(lp.iter).replace(' ', '')
             tgt = lp.target.id if isinstance(lp.target, ast.Name) else None
-            ok = it in ('range(len(passes))', 'range(0,len(passes))') and \
+            lists = {unparse(c.args[0]) for c in calls if c.args}
+            ok = len(lists) == 1 and it in tuple(
+                t_.format(list(lists)[0]) for t_ in (
+                    'range(len({}))', 'range(0,len({}))')) and \
                 all(len(c.args) == 2 and isinstance(c.args[1], ast.Name)
                     and c.args[1].id == tgt for c in calls)
             chk.check('C02.R17', 'strategy_hierarchical.reduce',
